@@ -115,7 +115,11 @@ def _run_path(m: Machine, ctx: Ctx, module, cls, fnode, contract, key, res, case
     env.contract = contract
     env.fname = key
     env.local_types = {}
-    env.cuts = {fnode.lineno + off: cl for off, cl in contract.asserts.items()}
+    from .stmts import resolve_anchors
+
+    env.anchors, missing = resolve_anchors(fnode, contract)
+    if missing:
+        raise Unsupported("contract anchors not found in the current source: %s" % missing)
     env.old = Env(dict(loc), module, cls, fnode)
     env.old_heap = m.heap.copy()
     env.old.old, env.old.old_heap = env.old, env.old_heap
@@ -179,6 +183,13 @@ def _run_path(m: Machine, ctx: Ctx, module, cls, fnode, contract, key, res, case
             except Unsupported:
                 pass
         env.result = rv
+        for locn, expr in contract.ghost_exit.items():
+            val = m.spec_val(expr, env)
+            m.assign(ast.parse(locn, mode="eval").body, val, env)
+        for j, cl in enumerate(contract.exit_cuts):
+            t = m.spec_bool(cl, env)
+            ctx.oblige("%s:exit-cut.%d" % (key, j), "assert", t, note=cl, model_vars=model_vars)
+            ctx.assume(t)
         for j, cl in enumerate(contract.ensures):
             ctx.oblige("%s:ensures.%d" % (key, j), "ensures", m.spec_bool(cl, env), note=cl, model_vars=model_vars)
         for j, cl in enumerate(invs):
